@@ -337,4 +337,30 @@ def r16_5(ctx):
     ctx.check("len(self.whitespace) + cell_len(self.text) + cell_len(self.suffix)" in norm(g.node), g.fq, "start_length", g.where, "indent, text and suffix are counted", "_Line.check_length does not count whitespace + text + suffix")
 
 
-RULES = [r16_1, r16_2, r16_3, r16_4, r16_5]
+def r16_6(ctx):
+    ctx.rule("R16.6", "a leaf's repr is computed from that very object: no mapping keyed by the traversed value hands out a repr inside pretty.traverse - equal keys of different types (1 == True == 1.0, 0 == False) would share one entry and the first one's repr would be printed for the others")
+    m = ctx.repo.mod("pretty")
+    outer = m.fn("traverse")
+    bad = []
+    fam = [outer] + [f for q, f in m.functions.items() if q.startswith("traverse.<locals>.")]
+    for f in fam:
+        params = set(f.params)
+        for x in walk_local(f.node):
+            # store  D[obj] = <something derived from repr/to_repr>   or lookup D.get(obj) / D[obj] used as a repr
+            key = None
+            if isinstance(x, ast.Subscript) and isinstance(x.value, ast.Name) and isinstance(x.slice, ast.Name) and x.slice.id in params and isinstance(x.ctx, ast.Store):
+                par = m.parent_of.get(x)
+                val = par.value if isinstance(par, ast.Assign) else None
+                if val is not None and any(isinstance(c, ast.Call) and norm(c.func) in ("repr", "to_repr", "_to_repr") for c in ast.walk(val)):
+                    key = x
+            if key is not None:
+                bad.append((f, key))
+    for f, k in bad:
+        st = k
+        while not isinstance(st, ast.stmt):
+            st = m.parent_of[st]
+        ctx.violation(f.fq, short(st), f"{m.relpath}:{st.lineno}", f"`{short(st)}` memoises a repr under the traversed VALUE `{norm(k.slice)}`: values that compare equal but print differently (1, True, 1.0) get each other's repr, so the pretty output no longer evaluates back to the original object")
+    ctx.check(not bad, outer.fq, "no repr cache keyed by value", outer.where, "reprs are not cached by value", "a repr cache keyed by the traversed value exists in traverse()")
+
+
+RULES = [r16_1, r16_2, r16_3, r16_4, r16_5, r16_6]
